@@ -131,3 +131,55 @@ Proof.
   intros H. rewrite idx_shape, zb_length.
   exact (idx_loop_spec bs H bs [] (S (length bs)) eq_refl ltac:(lia)).
 Qed.
+
+(* ------------------------------------------------------------------ *)
+(* the zero padding  "00"[1+(bits.Len32(uint32(r))-1)/4:]              *)
+Lemma bits_Len32_size r : bits_Len32 (Z.of_N r) = Z.of_N (N.size r).
+Proof.
+  unfold bits_Len32. destruct r as [|p]; [reflexivity|].
+  replace (Z.of_N (N.pos p) =? 0) with false by lia.
+  destruct p; cbn [Z.of_N Z.log2 N.size Pos.size]; lia.
+Qed.
+
+Lemma skipn_repeat {A} (a : A) : forall k w, skipn k (repeat a w) = repeat a (w - k).
+Proof.
+  induction k as [|k IH]; intros w; [now rewrite Nat.sub_0_r|].
+  destruct w as [|w]; [reflexivity|]. cbn [repeat skipn]. rewrite IH. reflexivity.
+Qed.
+Lemma zb_repeat b k : zb (repeat b k) = repeat (byte2z b) k.
+Proof. induction k as [|k IH]; [reflexivity|]. cbn [repeat zb map]. f_equal. exact IH. Qed.
+
+Definition pad_idx (r : Z) : Z :=
+  wrap_i64 (1 + wrap_i64 (Z.quot (wrap_i64 (bits_Len32 (wrap_u32 r) - 1)) 4)).
+
+Lemma size_le_32 r : (r < 4294967296)%N -> (N.size r <= 32)%N.
+Proof.
+  intros H. destruct (N.eq_dec r 0) as [->|Hn]; [cbn; lia|].
+  rewrite N.size_log2 by assumption.
+  assert (N.log2 r < 32)%N by (apply N.log2_lt_pow2; [lia|exact H]). lia.
+Qed.
+
+Lemma pad_idx_eq r : (r < 4294967296)%N ->
+  pad_idx (Z.of_N r) = Z.of_nat (1 + N.to_nat ((N.size r - 1) / 4)).
+Proof.
+  intros H. pose proof (size_le_32 r H) as Hs. unfold pad_idx.
+  rewrite wrap_u32_id by lia. rewrite bits_Len32_size.
+  rewrite (wrap_i64_id (Z.of_N (N.size r) - 1)) by lia.
+  destruct (N.eq_dec (N.size r) 0) as [E|E].
+  - rewrite E. cbn. reflexivity.
+  - rewrite Z.quot_div_nonneg by lia.
+    rewrite (wrap_i64_id (_ / 4)) by lia. rewrite wrap_i64_id by lia. lia.
+Qed.
+
+Lemma pad_slice w r : (r < 4294967296)%N -> (N.size r <= 4 * N.of_nat w)%N -> (0 < w)%nat ->
+  slice_lo (repeat 48 w) (pad_idx (Z.of_N r)) =
+  Val (zb (repeat x30 (w - (1 + N.to_nat ((N.size r - 1) / 4))))).
+Proof.
+  intros H Hs Hw. rewrite pad_idx_eq by assumption.
+  set (k := (1 + N.to_nat ((N.size r - 1) / 4))%nat).
+  assert (Hk : (k <= w)%nat) by (unfold k; lia).
+  unfold slice_lo, len. rewrite repeat_length.
+  replace ((Z.of_nat k <? 0) || (Z.of_nat w <? Z.of_nat k)) with false by lia.
+  rewrite Nat2Z.id, skipn_repeat, zb_repeat. reflexivity.
+Qed.
+
